@@ -19,6 +19,7 @@ type DeepOpts struct {
 	SkipTypes  map[string]bool // full type string
 	MaxDepth   int
 	BytesAsLen bool // render []byte as its length only
+	SortSlices bool // render slice elements in sorted order (only where element order cannot influence the future)
 }
 
 func DeepKey(v any, o DeepOpts) string {
@@ -112,6 +113,17 @@ func (d *dumper) dump(sb *strings.Builder, v reflect.Value, depth int) {
 				return
 			}
 			fmt.Fprintf(sb, "%x", readable(v).Bytes())
+			return
+		}
+		if d.o.SortSlices && v.Kind() == reflect.Slice {
+			parts := make([]string, v.Len())
+			for i := 0; i < v.Len(); i++ {
+				var eb strings.Builder
+				d.dump(&eb, v.Index(i), depth+1)
+				parts[i] = eb.String()
+			}
+			sort.Strings(parts)
+			sb.WriteString("[" + strings.Join(parts, ",") + "]")
 			return
 		}
 		sb.WriteString("[")
